@@ -472,6 +472,32 @@ impl Property for BoundsProp {
             }
             let prefix = Model { vars: m.vars.clone(), cons: m.cons[..k].to_vec() };
             let sols = sem::solutions(&prefix, 5_000_000).expect("harness: enumeration limit");
+            // A solve (possibly interrupted after a few polls, possibly under an assumption) between two postings
+            // must leave the root bounds untouched by anything but root-level inference: the solver is back at
+            // the root when the call returns, whatever the result.
+            let h = m.struct_hash().wrapping_add(k as u64 * 0x9E37);
+            if k > 0 && n > 0 && h % 3 != 0 {
+                let mut br = b.brancher(&case.cfg.brancher);
+                let mut t = CountingTermination::stop_at(1 + (h >> 8) % 5, BUDGET);
+                let infeasible = if h % 3 == 1 || case.cfg.no_learning {
+                    out.classes.push("probe:interrupted_satisfy".into());
+                    matches!(satisfy(&mut b, &mut br, &mut t), SatRes::Unsat)
+                } else {
+                    out.classes.push("probe:interrupted_assumption_solve".into());
+                    let var = (h >> 16) as usize % n;
+                    let d = &m.vars[var];
+                    let val = d.lb() + ((h >> 24) % (d.size().max(1))) as i32;
+                    let assumption = Pred { var, kind: if (h >> 5) % 2 == 0 { PKind::Ge } else { PKind::Le }, val };
+                    matches!(satisfy_under_assumptions(&mut b, &mut br, &mut t, &[assumption], false), AssRes::Unsat)
+                };
+                if infeasible {
+                    if !sols.is_empty() {
+                        return Err(Failure::new("wrong:unsat-but-sat", format!("a solve after {k} constraints reports Unsatisfiable but the prefix has {} solutions", sols.len())));
+                    }
+                    out.classes.push("probe:unsat".into());
+                    break;
+                }
+            }
             for i in 0..n {
                 let lb = b.solver.lower_bound(&b.doms[i]);
                 let ub = b.solver.upper_bound(&b.doms[i]);
